@@ -138,6 +138,9 @@ func ParsePutCommand(cmd redcon.Command) (*Put, error) {
 			args = args[1:]
 			continue
 		case "PX":
+			if len(args) < 2 {
+				return nil, errors.New("syntax error")
+			}
 			px, err := strconv.ParseInt(util.BytesToString(args[1]), 10, 64)
 			if err != nil {
 				return nil, err
@@ -146,6 +149,9 @@ func ParsePutCommand(cmd redcon.Command) (*Put, error) {
 			args = args[2:]
 			continue
 		case "EX":
+			if len(args) < 2 {
+				return nil, errors.New("syntax error")
+			}
 			ex, err := strconv.ParseFloat(util.BytesToString(args[1]), 64)
 			if err != nil {
 				return nil, err
@@ -154,6 +160,9 @@ func ParsePutCommand(cmd redcon.Command) (*Put, error) {
 			args = args[2:]
 			continue
 		case "EXAT":
+			if len(args) < 2 {
+				return nil, errors.New("syntax error")
+			}
 			exat, err := strconv.ParseFloat(util.BytesToString(args[1]), 64)
 			if err != nil {
 				return nil, err
@@ -162,6 +171,9 @@ func ParsePutCommand(cmd redcon.Command) (*Put, error) {
 			args = args[2:]
 			continue
 		case "PXAT":
+			if len(args) < 2 {
+				return nil, errors.New("syntax error")
+			}
 			pxat, err := strconv.ParseInt(util.BytesToString(args[1]), 10, 64)
 			if err != nil {
 				return nil, err
@@ -293,7 +305,7 @@ func (g *GetEntry) Command(ctx context.Context) *redis.StringCmd {
 }
 
 func ParseGetEntryCommand(cmd redcon.Command) (*GetEntry, error) {
-	if len(cmd.Args) < 2 {
+	if len(cmd.Args) < 3 {
 		return nil, errWrongNumber(cmd.Args)
 	}
 
@@ -608,10 +620,16 @@ func ParseScanCommand(cmd redcon.Command) (*Scan, error) {
 	for len(args) > 0 {
 		switch arg := strings.ToUpper(util.BytesToString(args[0])); arg {
 		case "MATCH":
+			if len(args) < 2 {
+				return nil, errors.New("syntax error")
+			}
 			s.SetMatch(util.BytesToString(args[1]))
 			args = args[2:]
 			continue
 		case "COUNT":
+			if len(args) < 2 {
+				return nil, errors.New("syntax error")
+			}
 			count, err := strconv.Atoi(util.BytesToString(args[1]))
 			if err != nil {
 				return nil, err
@@ -865,7 +883,7 @@ func ParseLockCommand(cmd redcon.Command) (*Lock, error) {
 	// EX or PX are optional.
 	if len(cmd.Args) > 4 {
 		if len(cmd.Args) == 5 {
-			return nil, fmt.Errorf("%w: %s needs a numerical argument", ErrInvalidArgument, util.BytesToString(cmd.Args[5]))
+			return nil, fmt.Errorf("%w: %s needs a numerical argument", ErrInvalidArgument, util.BytesToString(cmd.Args[4]))
 		}
 
 		switch arg := strings.ToUpper(util.BytesToString(cmd.Args[4])); arg {
